@@ -22,4 +22,4 @@ theorem verifyUpdate_eq_root (hs : H.Sound) (L : Nat) (S' : List (Key × VH)) (h
   simp only [verifyUpdate, h, blockResultV, tgtV, Nat.sub_self, hashUpV, restrict]
 
 end Nomt
-#print axioms Nomt.verifyUpdate_eq_root
+
